@@ -5,8 +5,24 @@ from props import geomops_common as gc
 PIPES = {"geomops": gc.pipe("C16")}
 
 
+def bounds_pipe(ctx, verdict, cases, name="boundsclone"):
+    obs = vlib.run_driver(ctx, "bounds", cases)
+    viols = vlib.model_b(ctx, "BoundsObs", "Obs.cfg", obs, name="BoundsObs/clone")
+    for idx, v in viols:
+        verdict.add(name, v["sig"], cases[idx], dict(row=v["row"]))
+    return obs
+
+
+PIPES["boundsclone"] = bounds_pipe
+
+
 def run(ctx, verdict):
     cfg = "GeomOps_C16_quick.cfg" if ctx.quick else "GeomOps_C16_thorough.cfg"
     gc.explore(ctx, verdict, "C16", cfg)
+    # geom.Bounds and geom.Coord are cloneable too (Bounds specification, family "clone")
+    out, r = vlib.model_a(ctx, "BoundsModel", "Bounds_clone_%s.cfg" % ("quick" if ctx.quick else "thorough"), ["CASE"], workers=8)
+    bcases = sorted(out["CASE"], key=vlib.digest)
+    ctx.coverage_extra.setdefault("model_a", []).append(dict(cfg="Bounds_clone", cases=len(bcases)))
+    bounds_pipe(ctx, verdict, bcases)
     ctx.assumptions += ["ordinates are opaque tokens instantiated from a palette of 128 float64 bit patterns (rotated by seed)",
                         "independence is judged on everything the public API shows (FlatCoords, Ends, Endss, Coords, parts, SRID, layout)"]
